@@ -65,7 +65,8 @@ def x0_of_kin(kin):
 X0_PER_KIN = [0.0]   # set per model (module-level because rate functions must be plain functions)
 
 
-def make_model(x0: float = X0, p: dict | None = None, r: Rendering = SMALL, ramp: bool = False, ia: bool = False):
+def make_model(x0: float = X0, p: dict | None = None, r: Rendering = SMALL, ramp: bool = False, ia: bool = False,
+               mirror: bool = False):
     """x' = kin - k*x [+ r*time when ramp].  ia: the initial value of x is assignment-defined (X0 under the
     parameter values at construction, proportional to kin)."""
     from mxlpy import Model
@@ -83,6 +84,14 @@ def make_model(x0: float = X0, p: dict | None = None, r: Rendering = SMALL, ramp
     )
     if ramp:
         m.add_parameter("r", ramp_rate(r)).add_reaction("vramp", rampflux, args=["time", "r"], stoichiometry={"x": 1.0})
+    if mirror:
+        # a second variable with the same equation and the same start: it must stay equal to x; an override is
+        # then written as two calls in a row on the two variables
+        m.add_variables({"y": InitialAssignment(fn=x0_of_kin, args=["kin"]) if ia else x0})
+        m.add_reaction("vin_y", influx, args=["kin"], stoichiometry={"y": 1.0})
+        m.add_reaction("vout_y", outflux, args=["k", "y"], stoichiometry={"y": -1.0})
+        if ramp:
+            m.add_reaction("vramp_y", rampflux, args=["time", "r"], stoichiometry={"y": 1.0})
     return m
 
 
@@ -138,15 +147,17 @@ def step_dicts(steps: list, r: Rendering, salt: int) -> list:
 class Run:
     """One real Simulator driven by specification operations."""
 
-    def __init__(self, r: Rendering = SMALL, salt: int = 0, ramp: bool = False, ia: bool = False):
+    def __init__(self, r: Rendering = SMALL, salt: int = 0, ramp: bool = False, ia: bool = False,
+                 use_jacobian: bool = False, mirror: bool = False):
         from mxlpy import Simulator
 
         self.r = r
         self.ramp = ramp_rate(r) if ramp else 0.0
         self.ia = ia
         self.cand_kin = {P0["kin"]}     # kin values in force while the simulator had not run yet (ia start state)
-        self.model = make_model(r=r, ramp=ramp, ia=ia)
-        self.sim = Simulator(self.model)
+        self.mirror = mirror
+        self.model = make_model(r=r, ramp=ramp, ia=ia, mirror=mirror)
+        self.sim = Simulator(self.model, use_jacobian=use_jacobian)
         self.bases = {0: 0.0}
         self.touched = False     # the history has read the computed views of a result
         self.grids: dict = {}    # a caller keeps and reuses its time grids: one float64 array object per grid
@@ -160,7 +171,23 @@ class Run:
 
         key = (kind, tuple(values))
         if key not in self.grids:
-            self.grids[key] = np.array(values, dtype=float)
+            g = np.array(values, dtype=float)
+            if all(float(v).is_integer() for v in values):
+                # whole-number points are also written the way people write them: integers
+                ints = [int(v) for v in values]
+                how = (self.salt // 64 + len(self.grids)) % 4
+                steps = {b - a for a, b in zip(ints, ints[1:])}
+                if how == 1:
+                    g = ints
+                elif how == 2:
+                    g = np.array(ints, dtype=np.int64)
+                elif how == 3 and len(steps) == 1 and min(steps) > 0:
+                    g = range(ints[0], ints[-1] + 1, min(steps))
+                elif how == 3:
+                    g = tuple(ints)
+                if how:
+                    self.stats["integer_typed_grids"] = self.stats.get("integer_typed_grids", 0) + 1
+            self.grids[key] = g
         return self.grids[key]
 
     def t(self, tm: dict) -> float:
@@ -219,6 +246,8 @@ class Run:
             elif k == "scale":
                 s.scale_parameter(op["name"], float(op["f"]))
             elif k == "ov":
+                if self.mirror:
+                    s.update_variable("y", float(op["v"]))    # two overrides in a row, no segment in between
                 s.update_variable("x", float(op["v"]))
             elif k == "ss":
                 s.simulate_to_steady_state()
@@ -254,6 +283,8 @@ class Run:
         for df, p in zip(res.raw_variables, res.raw_parameters, strict=True):
             out.append({"t": [float(v) for v in df.index], "x": [float(v) for v in df["x"].to_numpy()],
                         "p": {kk: float(v) for kk, v in p.items()}})
+            if self.mirror:
+                out[-1]["y"] = [float(v) for v in df["y"].to_numpy()]
         return out
 
     def views(self):
@@ -306,6 +337,13 @@ def compare(run: Run, pst: dict, obs, stats: dict | None = None) -> dict | None:
             ep["r"] = run.ramp
         if set(o["p"]) != set(ep) or any(not tclose(o["p"][n], ep[n]) for n in ep):
             return {"what": "parameters", "segment": i, "expected": ep, "observed": o["p"]}
+    # the mirror variable (same equation, same start, every override written for both) stays equal to x
+    for i, o in enumerate(obs):
+        for tv, xv, yv in zip(o["t"], o["x"], o.get("y", [])):
+            tol = FRAGILE_ABS if max(abs(xv), abs(yv)) < FRAGILE_BELOW else ABS + REL * max(abs(xv), abs(yv))
+            if not abs(xv - yv) <= tol:
+                return {"what": "values", "segment": i, "time": tv, "expected": f"y = x = {xv}", "observed": yv,
+                        "mirror_variable": True}
     # values: walk the history
     hist = pst["hist"]
     x = None
@@ -411,13 +449,14 @@ def hist_salt(hist_steps: list) -> int:
 
 
 def replay_history(hist_steps: list, *, views_at_end: bool = True, r: Rendering = SMALL, ramp: bool = False,
-                   ia: bool = False) -> tuple[dict | None, dict]:
+                   ia: bool = False, use_jacobian: bool = False, mirror: bool = False) -> tuple[dict | None, dict]:
     """Drive one emitted behaviour through the real Simulator; compare after every step.  Raw results are compared
     after every call; the computed views as well once the history itself has read them (operation "read"), and
     always at the end."""
-    run = Run(r, salt=hist_salt(hist_steps), ramp=ramp, ia=ia)
+    run = Run(r, salt=hist_salt(hist_steps), ramp=ramp, ia=ia, use_jacobian=use_jacobian, mirror=mirror)
     stats = run.stats
-    tag = r.name + ("+ramp" if ramp else "") + ("+ia" if ia else "")
+    tag = r.name + ("+ramp" if ramp else "") + ("+ia" if ia else "") + ("+jac" if use_jacobian else "") + \
+        ("+mirror" if mirror else "")
     obs = None
     for j, step in enumerate(hist_steps):
         if j > 0 and not hist_steps[j - 1]["st"]["segs"]:
@@ -450,10 +489,14 @@ def replay_renderings(hist_steps: list) -> tuple[dict | None, dict]:
     ramp = no_ss and (salt >> 3) % 2 == 0
     ia = (salt >> 4) % 2 == 0
     r = LARGE if (has_eps(hist_steps) and no_ss) else SMALL
-    bad, stats = replay_history(hist_steps, r=r, ramp=ramp, ia=ia)
+    jac = (salt >> 5) % 2 == 0       # construction options of the Simulator are a dimension of the family too
+    mirror = (salt >> 6) % 2 == 0
+    bad, stats = replay_history(hist_steps, r=r, ramp=ramp, ia=ia, use_jacobian=jac, mirror=mirror)
     stats["large"] = int(r is LARGE)
     stats["ramp"] = int(ramp)
     stats["ia"] = int(ia)
+    stats["jac"] = int(jac)
+    stats["mirror"] = int(mirror)
     return bad, stats
 
 
@@ -473,6 +516,8 @@ def classify(hist_steps: list, detail: dict) -> str | None:
     before = ops[start:j]
     cur = ops[j]
     book = ("raised", "index", "axis-not-increasing", "segment-count", "trace")
+    if detail.get("mirror_variable") and "ov" in before + [cur]:
+        return "consecutive-overrides-lose-the-first"
     if any(s["op"]["k"] in ("proto", "ptc") and
            any(KEEP in (st["p"]["kin"], st["p"]["kk"]) for st in s["op"]["steps"]) for s in hist_steps[start:j + 1]) \
             and what in ("raised", "parameters", "values", "trace", "result", "index", "segment-count"):
@@ -624,7 +669,8 @@ def record_trace(seed, length: int, weights: dict | None = None, ops: list | Non
     if r is LARGE:
         weights["ss"] = 0
     ramp = r is LARGE      # no steady-state runs there: the time-dependent member of the family
-    run = Run(r, salt=rnd.randrange(1 << 16), ramp=ramp)
+    jac, mirror = rnd.random() < 0.5, rnd.random() < 0.5
+    run = Run(r, salt=rnd.randrange(1 << 16), ramp=ramp, use_jacobian=jac, mirror=mirror)
     ev = []
     offgrid = None
     values = []
@@ -672,4 +718,5 @@ def record_trace(seed, length: int, weights: dict | None = None, ops: list | Non
         ev.append({"op": op, "raised": got["raised"], "segs": segs, "err": obs is None, "vread": run.touched,
                    "views": views})
         values = [o["x"] for o in obs or []]
-    return {"seed": str(seed), "ev": ev, "offgrid": offgrid, "values": values, "rendering": rendering, "ramp": ramp}
+    return {"seed": str(seed), "ev": ev, "offgrid": offgrid, "values": values, "rendering": rendering, "ramp": ramp,
+            "use_jacobian": jac, "mirror": mirror}
